@@ -122,29 +122,104 @@ func sameFunc(a, b *ssa.Function) bool {
 // allCallersOf enumerates every call site in the module whose static callee
 // is target, including go/defer, plus uses of target as a value (returned as
 // valueUses).
-func (c *Ctx) allCallersOf(target *ssa.Function) (sites []callSite, valueUses []ssa.Instruction) {
+type callersMemo struct {
+	sites     []callSite
+	valueUses []ssa.Instruction
+}
+
+// callerIndex: one pass over the module, keyed by the callee (and by its
+// generic origin, see sameFunc).
+type callerIdx struct {
+	sites map[*ssa.Function][]callSite
+	uses  map[*ssa.Function][]ssa.Instruction
+	byObj map[types.Object][]ssa.Instruction // synthetic bound-method wrappers, by object
+}
+
+var callerIdxCache = map[*Ctx]*callerIdx{}
+
+func (c *Ctx) callerIndex() *callerIdx {
+	if ix := callerIdxCache[c]; ix != nil {
+		return ix
+	}
+	ix := &callerIdx{sites: map[*ssa.Function][]callSite{}, uses: map[*ssa.Function][]ssa.Instruction{}, byObj: map[types.Object][]ssa.Instruction{}}
+	keys := func(f *ssa.Function) []*ssa.Function {
+		if f == nil {
+			return nil
+		}
+		if o := f.Origin(); o != nil && o != f {
+			return []*ssa.Function{f, o}
+		}
+		return []*ssa.Function{f}
+	}
+	noteUse := func(v ssa.Value, ins ssa.Instruction) {
+		switch x := v.(type) {
+		case *ssa.Function:
+			for _, k := range keys(x) {
+				ix.uses[k] = append(ix.uses[k], ins)
+			}
+		case *ssa.MakeClosure:
+			if f, ok := x.Fn.(*ssa.Function); ok {
+				for _, k := range keys(f) {
+					ix.uses[k] = append(ix.uses[k], ins)
+				}
+				if f.Synthetic != "" && f.Object() != nil {
+					ix.byObj[f.Object()] = append(ix.byObj[f.Object()], ins)
+				}
+			}
+		}
+	}
 	for _, f := range c.Funcs {
 		for _, b := range f.Blocks {
 			for _, ins := range b.Instrs {
 				if ci, ok := ins.(ssa.CallInstruction); ok {
 					cc := ci.Common()
-					if sameFunc(cc.StaticCallee(), target) {
-						sites = append(sites, callSite{Fn: f, Instr: ci, Callee: target})
+					for _, k := range keys(cc.StaticCallee()) {
+						ix.sites[k] = append(ix.sites[k], callSite{Fn: f, Instr: ci, Callee: k})
 					}
 					for _, a := range cc.Args {
-						if usesFuncValue(a, target) {
-							valueUses = append(valueUses, ins)
-						}
+						noteUse(a, ins)
 					}
 					continue
 				}
 				for _, op := range ins.Operands(nil) {
-					if op != nil && *op != nil && usesFuncValue(*op, target) {
-						valueUses = append(valueUses, ins)
+					if op != nil && *op != nil {
+						noteUse(*op, ins)
 					}
 				}
 			}
 		}
+	}
+	callerIdxCache[c] = ix
+	return ix
+}
+
+func (c *Ctx) allCallersOf(target *ssa.Function) (sites []callSite, valueUses []ssa.Instruction) {
+	if target == nil {
+		return nil, nil
+	}
+	ix := c.callerIndex()
+	seenS := map[ssa.Instruction]bool{}
+	add := func(k *ssa.Function) {
+		for _, s := range ix.sites[k] {
+			if !seenS[s.Instr] {
+				seenS[s.Instr] = true
+				s.Callee = target
+				sites = append(sites, s)
+			}
+		}
+		valueUses = append(valueUses, ix.uses[k]...)
+	}
+	add(target)
+	// instantiations of a generic target
+	if target.Origin() == nil {
+		for k := range ix.sites {
+			if k != target && k.Origin() == target {
+				add(k)
+			}
+		}
+	}
+	if target.Object() != nil {
+		valueUses = append(valueUses, ix.byObj[target.Object()]...)
 	}
 	return
 }
